@@ -126,10 +126,26 @@ def run(prog, chk):
         "catalogue of partial operations (core/escape.py): get_text/get_list decode strictly; encode_dss_signature "
         "raises ValueError; nacl VerifyKey.verify raises BadSignatureError or nacl ValueError; cryptography verify "
         "raises InvalidSignature; operations not catalogued are total",
-        "Message.get_binary/get_mpint never raise (short reads return what is there)"]
+        "Message.get_binary/get_mpint never raise (short reads return what is there; the subscripts inside them and inside "
+        "inflate_long are decided by the length-guard analysis)"]
     kex = []
     cg = CallGraph(prog, kex)
-    esc = Escapes(prog, cg)
+    from ..core.escape import unguarded_constant_subscripts, unguarded_variable_subscripts
+    idx_cache = {}
+
+    def extra_sites(f):
+        # the decoders under get_mpint / get_binary index the bytes they were given: an index needs an established length
+        out = []
+        if f.module.name in ("util", "message", "rsakey", "ecdsakey", "ed25519key"):
+            if f.qual not in idx_cache:
+                try:
+                    idx_cache[f.qual] = [(x, why) for (x, need, have, why) in unguarded_constant_subscripts(prog, f)] + list(unguarded_variable_subscripts(prog, f))
+                except AnalysisError:
+                    idx_cache[f.qual] = []
+            for (x, why) in idx_cache[f.qual]:
+                out.append((x, "IndexError", why))
+        return out
+    esc = Escapes(prog, cg, extra_sites=extra_sites)
     fold = Folder(prog)
 
     for K in KEYS:
@@ -143,6 +159,10 @@ def run(prog, chk):
             chk.ob("R1.verify-never-raises", K, True, v.loc, "no catalogued exception escapes %s" % v.qual)
         for (c, origin) in sorted(es):
             site = origin.split(" at ")[0]
+            if c == "TypeError" and site == "raise" and origin.endswith(("via util.u", "via util.b")):
+                # the type guard of util.u / util.b: Message.get_text hands u() the bytes get_string() returned
+                chk.note("not a verification failure: %s (%s)" % (origin, "argument is always bytes here"))
+                continue
             chk.ob("R1.verify-never-raises", "%s:%s:%s" % (K, c, site), False, v.loc, "%s may escape: %s" % (c, origin))
         fl = Flow(prog, v, implicit=True, )
         rets = fl.nodes(lambda n: n.kind == "return")
